@@ -65,7 +65,7 @@ Names == <<
   "C08_MintedEqualsCounter", "C08_ClaimsWithinMinted", "C08_ShareBaseIsPledgedCapacity", "C08_MintOnlyInBlocks", "C08_MintBound", "C08_ClaimExact",
   "C09_ModelChangeAuthorised", "C09_PermissionApplied",
   "C10_CompleteByAssignee", "C10_NodeSelfOnly", "C10_CancelByCreator", "C10_PayerConsent", "C10_RenewPayerIsSigner",
-  "C11_KeptWhilePaid", "C11_ReleasedAtEnd", "C11_ModelOutlivesShards", "C11_NothingOverdue", "C11_OrderGoesWithModel",
+  "C11_KeptWhilePaid", "C11_ReleasedAtEnd", "C11_ModelOutlivesShards", "C11_NothingOverdue", "C11_OrderGoesWithModel", "C11_IncomeStops",
   "C12_Rescheduled", "C12_StoredOrderUntouched", "C12_ResolvedByBound", "C12_GivenUpInTime", "C12_ReplicasAccounted", "C12_MigrationUntouched",
   "C13_OrderShardsExist", "C13_ShardListedByItsOrder", "C13_CompletedShardScheduled", "C13_AliasBijection", "C13_HandOverHasSource",
   "C14_UsedIsSum", "C14_WorkerIsSum", "C14_ShardPledgedIsSum", "C14_PoolIsSum",
@@ -117,6 +117,7 @@ Verdict(name, x, g) ==
     [] name = "C11_ModelOutlivesShards"  -> V(TRUE, C11_ModelOutlivesShards(s))
     [] name = "C11_NothingOverdue"       -> V(TRUE, C11_NothingOverdue(s))
     [] name = "C11_OrderGoesWithModel"   -> V(TRUE, C11_OrderGoesWithModel(s))
+    [] name = "C11_IncomeStops"          -> V(TRUE, C11_IncomeStops(s))
     [] name = "C12_Rescheduled"          -> V(TRUE, C12_Rescheduled(s))
     [] name = "C12_StoredOrderUntouched" -> V(Kind(x) = "Blocks", C12_StoredOrderUntouched(x))
     [] name = "C12_ResolvedByBound"      -> V(TRUE, C12_ResolvedByBound(s, g))
